@@ -130,10 +130,12 @@ class Interpreter(BaseInterpreter[TContext, TEvent]):
             Union[Event, AfterEvent, DoneEvent]
         ] = asyncio.Queue()
         self._event_loop_task: Optional[asyncio.Task[None]] = None
-        #: Length of the current self-raised event chain. Incremented when an
-        #: action enqueues onto our own queue *during* processing, reset when
-        #: a macrostep completes without having done so. Bounds a runaway
-        #: `raise` without ever throttling external `send()` traffic.
+        #: Length of the self-raised chain that produced the event being
+        #: processed. Every queued event carries its own chain depth: one
+        #: produced while the run loop is processing another event continues
+        #: that event's chain (depth + 1), anything else starts at 0. Bounds a
+        #: runaway `raise` without ever throttling or discarding external
+        #: `send()` traffic.
         self._raise_depth: int = 0
         #: True while `_run_event_loop` is inside `_process_event...`.
         self._processing: bool = False
@@ -377,19 +379,9 @@ class Interpreter(BaseInterpreter[TContext, TEvent]):
         # 📦 Use the centralized helper from the base class to normalize the input.
         event_obj = self._prepare_event(event_or_type, **payload)
 
-        # 🔁 A `done.state.*` event produced while an event is being processed
-        #    is self-raised like a `raise`: count it, so an `onDone` that
-        #    re-completes its own state is cut by the chain breaker instead
-        #    of spinning forever without ever yielding to the event loop.
-        if (
-            self._processing
-            and isinstance(event_obj, DoneEvent)
-            and event_obj.type.startswith("done.state.")
-        ):
-            self._raise_depth += 1
-
-        # 📥 Place the standardized event object into the async queue.
-        await self._event_queue.put(event_obj)
+        # 📥 Place the standardized event object into the async queue,
+        #    together with the depth of the self-raised chain it belongs to.
+        await self._event_queue.put((event_obj, self._new_event_depth()))
 
     async def send_events(
         self, events: List[Union[Dict[str, Any], Event, str]]
@@ -414,7 +406,29 @@ class Interpreter(BaseInterpreter[TContext, TEvent]):
 
         for event in events:
             event_obj = self._prepare_event(event)
-            await self._event_queue.put(event_obj)
+            await self._event_queue.put((event_obj, self._new_event_depth()))
+
+    def _new_event_depth(self) -> int:
+        """Chain depth for an event that is being queued right now.
+
+        🔁 An event queued by the run-loop task itself while it is processing
+        another event (a `raise`, a self-addressed `sendTo`, a `done.state`
+        notification, an action calling `send()`) continues that event's
+        chain. Everything else - other tasks, timers, services, callers -
+        starts a new chain, so a bound on the chain can never throttle or
+        discard external traffic.
+
+        Returns:
+            int: The depth to store with the event.
+        """
+        if self._processing:
+            try:
+                current = asyncio.current_task()
+            except RuntimeError:  # pragma: no cover - no running loop
+                current = None
+            if current is not None and current is self._event_loop_task:
+                return self._raise_depth + 1
+        return 0
 
     # -------------------------------------------------------------------------
     # ⚙️ Internal Event Loop & Execution Logic
@@ -446,9 +460,9 @@ class Interpreter(BaseInterpreter[TContext, TEvent]):
             await self._initial_entry_done.wait()
             while self.status == "running":
                 # 📬 Wait indefinitely for the next event from the queue.
-                event = await self._event_queue.get()
+                event, chain_depth = await self._event_queue.get()
 
-                if self._raise_depth > limit:
+                if chain_depth > limit:
                     logger.error(
                         "🛑 Exceeded %d chained self-raised events on '%s'. "
                         "This means an action raises the event that triggers "
@@ -457,9 +471,9 @@ class Interpreter(BaseInterpreter[TContext, TEvent]):
                         limit,
                         self.id,
                     )
-                    self._raise_depth = 0
                     self._event_queue.task_done()
                     continue
+                self._raise_depth = chain_depth
 
                 logger.debug(
                     "🔥 Event '%s' dequeued for processing in '%s'.",
@@ -491,11 +505,7 @@ class Interpreter(BaseInterpreter[TContext, TEvent]):
                 #    here; we log and carry on with the next event.
                 try:
                     self._processing = True
-                    depth_before = self._raise_depth
                     await self._process_event_and_transient_transitions(event)
-                    # ✅ A macrostep that raised nothing ends the chain.
-                    if self._raise_depth == depth_before:
-                        self._raise_depth = 0
                 except asyncio.CancelledError:
                     raise
                 except Exception as exc:
@@ -509,6 +519,7 @@ class Interpreter(BaseInterpreter[TContext, TEvent]):
                     )
                 finally:
                     self._processing = False
+                    self._raise_depth = 0
 
                 self._event_queue.task_done()
 
@@ -821,11 +832,8 @@ class Interpreter(BaseInterpreter[TContext, TEvent]):
         """
         if not delay:
             # 🔁 A zero-delay delivery to OURSELVES during processing is the
-            #    self-feeding shape that can spin the loop. Count it so
-            #    `_run_event_loop` can break the chain; external `send()`
-            #    calls never pass through here.
-            if actor is self and self._processing:
-                self._raise_depth += 1
+            #    self-feeding shape that can spin the loop; `send()` stamps it
+            #    with the chain depth so `_run_event_loop` can break the chain.
             await self._send_to_actor(actor, target_event)
             return
 
